@@ -45,8 +45,9 @@ type ProofU struct {
 
 func (p *ProofU) MergeProofP(proofP *ProofP, pk *gabikeys.PublicKey) {
 	if proofP.P == nil { // new keyshare protocol version
-		p.C.Set(proofP.C)
-		p.SResponse.Set(proofP.SResponse)
+		// p.C is shared with the other proofs of the list and with the caller: do not write into it
+		p.C = new(big.Int).Set(proofP.C)
+		p.SResponse = new(big.Int).Set(proofP.SResponse)
 	} else {
 		p.U.Mod(
 			p.U.Mul(p.U, proofP.P),
@@ -195,8 +196,9 @@ type ProofD struct {
 // MergeProofP merges a ProofP into the ProofD.
 func (p *ProofD) MergeProofP(proofP *ProofP, _ *gabikeys.PublicKey) {
 	if proofP.P == nil { // new protocol version
-		p.C.Set(proofP.C)
-		p.AResponses[0].Set(proofP.SResponse)
+		// p.C is shared with the other proofs of the list and with the caller: do not write into it
+		p.C = new(big.Int).Set(proofP.C)
+		p.AResponses[0] = new(big.Int).Set(proofP.SResponse)
 	} else {
 		p.AResponses[0].Add(p.AResponses[0], proofP.SResponse)
 	}
